@@ -425,6 +425,16 @@ def planar_matrix(h):
     h.check("det=+1", h.eq(R[0, 0] * R[1, 1] - R[0, 1] * R[1, 0], 1.0))
 
 
+@contract("C19", TF + ".planar_matrix", name="scale-applied-after-rotation-and-offset")
+def planar_matrix_scale(h):
+    th = h.real("theta")
+    off = h.reals("off", 2)
+    sc = h.real("scale")
+    T = h.fn(TF + ".planar_matrix")(offset=off, theta=th, scale=sc)
+    c, s = h.np.cos(th), h.np.sin(th)
+    h.check("matrix=S.T", h.eq(T, [[sc * c, sc * s, sc * off[0]], [-sc * s, sc * c, sc * off[1]], [0.0, 0.0, 1.0]]))
+
+
 @contract("C19", TF + ".planar_matrix", name="about-point")
 def planar_matrix_point(h):
     th = h.real("theta")
